@@ -628,6 +628,7 @@ def _monitor(res, case, save_at, ts, us, nsteps, ev, mode="save_at"):
     # I6: interpolation between the two states it interpolates; I7: step counts
     skipped = False
     prev_attempts = None
+    prev_report = None
     for k, (r, nb) in enumerate(zip(reports, accepted_before_report), start=1):
         kind_r, t, ft, tt, n_to = r
         if not (ft - eps <= t <= tt + eps):
@@ -640,6 +641,15 @@ def _monitor(res, case, save_at, ts, us, nsteps, ev, mode="save_at"):
             res.label("branch:beyond")
             if not tt > save_at[k] + eps:
                 res.violate("I6:beyond", f"'beyond t1' branch used although {tt} <= {save_at[k]} + eps")
+        # I6 (continuation): `interp_from` is documented as "the left-hand side of the current subinterval": once a requested time
+        # inside a step has been reported, the remaining subinterval starts there, so a further report produced without another
+        # accepted attempt must interpolate from the previously reported state (its time: t for an interpolation, the step end for 'at t1')
+        if prev_attempts is not None and nb == prev_attempts and prev_report is not None:
+            expect_from = prev_report[1] if prev_report[0] == "interp" else prev_report[3]
+            if ft != expect_from:
+                res.violate("I6:continuation", f"report at {t}: interpolation starts from the state at {ft}, but the previous report (same step) left the "
+                            f"loop at {expect_from} (stale left end: several requested times inside one step)")
+        prev_report = r
         if int(nsteps[k - 1]) != nb:
             res.violate("I7:num_steps", f"entry {k}: reported {int(nsteps[k - 1])} steps, {nb} attempts were accepted before it was produced")
         if prev_attempts is not None and nb == prev_attempts:
